@@ -40,14 +40,14 @@ class Prop(PropBase):
                 ipid = rng.choice(ids)
                 ihl = rng.choice([5, 5, 5, 6, 15])
                 if len(payload) + 8 <= 1480 and rng.random() < 0.6:
-                    train = [udp_frame(payload, port, ip_id=ipid, ihl=ihl)]
+                    train = [udp_frame(payload, port, ip_id=ipid, ihl=ihl, df=rng.random() < 0.4)]      # often with the don't-fragment bit, as real senders set it
                 else:
                     fs = rng.choice([8, 64, 1480, 1480, 4000, 8000])
                     dg = (6699).to_bytes(2, 'big') + port.to_bytes(2, 'big') + ((8 + len(payload)) & 0xffff).to_bytes(2, 'big') + b'\x00\x00' + payload
                     train, off = [], 0
                     while off < len(dg):
                         chunk = dg[off:off + fs]
-                        train.append(udp_frame(b'', port, ip_id=ipid, ihl=ihl, frag_off=off, more=(off + fs < len(dg)), raw_ip_payload=chunk))
+                        train.append(udp_frame(b'', port, ip_id=ipid, ihl=ihl, frag_off=off, more=(off + fs < len(dg)), raw_ip_payload=chunk, df=rng.random() < 0.05))
                         off += fs
                     if len(train) > 400:
                         train = train[:2]      # keep files small: an unfinished train
